@@ -24,6 +24,10 @@ Monitor (knows only the I2C protocol and the port list):
   busy_rises     `busy` is high in the cycle after an operation was accepted (busy low <=> next strobe is taken;
                  the other direction is discharged by start_stop/nine_clocks: every strobe given while busy is
                  low is executed)
+
+Finding on the unchanged tree (scenario predicate kf_start_on_stale_sda): a START requested while the initiator itself
+has begun to pull SDA low within the last two cycles (e.g. START directly after START) takes the short START-SDA-L path
+because the synchronised sda_i still reads high, so no START edge is generated.
 """
 from amaranth import *
 from ..harness import Harness
